@@ -149,11 +149,21 @@ def build_traces(path, tier, seed):
         if i % 4 == 3:
             x = x + 5.0          # the mean dominates: the largest-amplitude bin is the zero-frequency bin (period 1/0)
         o = eqsig.AccSignal(x, dt)
+        # transform length: default, extra powers of two, explicit even / odd n (the dominant period is read off THAT grid)
+        nsel = int(rng.integers(5))
+        if nsel == 1:
+            o.gen_fa_spectrum(p2_plus=int(rng.integers(1, 3)))
+        elif nsel == 2:
+            o.gen_fa_spectrum(n=n + (n % 2) + 2 * int(rng.integers(0, 9)))
+        elif nsel == 3:
+            o.gen_fa_spectrum(n=n + 1 - (n % 2) + 2 * int(rng.integers(0, 9)))
+        elif nsel == 4:
+            o.generate_fa_spectrum()
         with warnings.catch_warnings():
             warnings.simplefilter("ignore")
             per = float(im.max_fa_period(o))
         add({"kind": "dom", "fas": enc_cseq(o.fa_spectrum), "freqs": enc_seq(o.fa_freqs), "period": enc(per)},
-            {"kind": "dom", "n": n, "dt": dt, "f0": f0, "period": per})
+            {"kind": "dom", "n": n, "dt": dt, "f0": f0, "period": per, "transform_length": ["default", "p2_plus", "explicit even n", "explicit odd n", "default (alias)"][nsel]})
     ninv = 16 if tier == "quick" else 100
     evens = [4, 6, 8, 10, 12, 14, 16, 18, 20, 22, 28, 30, 36, 50, 62, 64, 100, 126]
     for i in range(ninv):
@@ -161,6 +171,15 @@ def build_traces(path, tier, seed):
         x, shape = gen.record(rng, n, amp=1.0)
         dt = [0.01, 0.5][i % 2]
         fas, fr = fq.calc_fa_spectrum(eqsig.Signal(x, dt))
+        hist = None
+        if i % 3 == 1:
+            # the inverse is applied to the spectrum a signal object holds (not a copy); the object's spectrum is read
+            # again afterwards and validated like any other spectrum (length a power of two: the object does not pad)
+            n = int(2 ** rng.integers(2, 8))
+            x, shape = gen.record(rng, n, amp=1.0)
+            x = x + 0.25
+            hist = eqsig.AccSignal(x, dt) if i % 2 else eqsig.Signal(x, dt)
+            fas = hist.fa_spectrum
         if i % 2:
             y = fq.fas2values(fas, dt)
             fn = "fas2values"
@@ -168,7 +187,11 @@ def build_traces(path, tier, seed):
             y = fq.fas2signal(fas, dt, stype="signal" if i % 4 else "acc").values
             fn = "fas2signal"
         add({"kind": "inv", "dt": enc(dt), "x": enc_seq(x), "y": enc_cseq(np.asarray(y, dtype=complex))},
-            {"kind": "inv", "n": n, "dt": dt, "fn": fn, "len_y": len(y), "shape": shape})
+            {"kind": "inv", "n": n, "dt": dt, "fn": fn, "len_y": len(y), "shape": shape, "spectrum_from": "object" if hist is not None else "array-level function"})
+        if hist is not None:
+            add({"kind": "fas", "dt": enc(dt), "x": enc_seq(x), "N": int(next_pow2(n)), "fas": enc_cseq(hist.fa_spectrum), "freqs": enc_seq(hist.fa_freqs),
+                 "objfas": enc_cseq([]), "objfreqs": enc_seq([])},
+                {"kind": "fas", "n": n, "N": int(next_pow2(n)), "variant": "object spectrum re-read after %s was applied to it" % fn, "dt": dt, "shape": shape})
     write_ndjson(path, recs)
     return meta
 
